@@ -93,6 +93,16 @@ def run(tier: str) -> Run:
                 breakers.append({'kind': e.kind, 'where': e.where, 'stmt': e.detail.get('stmt', '')})
             for w in tainted_condition(o):
                 breakers.append({'kind': 'python-branch-on-event-data', 'where': w})
+        # a decision on the size / shape of the operand (bins are counted for event data, elements for dense data) that selects between
+        # two ways of computing the result; a decision that only refuses (raises on one side) is the same refusal in both modes
+        sides: dict = {}
+        for o in binned:
+            for c, taken, where in o.conditions:
+                if getattr(c, 'shape_of_events', False):
+                    sides.setdefault(where, set()).add((taken, o.kind))
+        for where, seen_ in sides.items():
+            if (True, 'return') in seen_ and (False, 'return') in seen_:
+                breakers.append({'kind': 'result-selected-by-the-size-of-the-operand', 'where': where})
             for e in events(o, 'binned-unsafe-access'):
                 unsafe.append({'where': e.where, **e.detail})
         for o in dense + binned:
